@@ -62,6 +62,16 @@ type Server struct {
 	wg       sync.WaitGroup
 	// ScanCount is the default number of keys examined by one SCAN call (redis: 10).
 	ScanCount int
+	// failNext > 0: the next dataset command is answered with an error and NOT executed (fault injection: a READONLY
+	// replica, an OOM reply, …); decremented per command.
+	failNext int
+}
+
+// FailNext makes the next n dataset commands fail with an error reply without executing them.
+func (s *Server) FailNext(n int) {
+	s.mu.Lock()
+	s.failNext = n
+	s.mu.Unlock()
 }
 
 // New creates a server without a listener (dataset + journal only).
@@ -449,7 +459,13 @@ func (s *Server) Exec(dbi int, args [][]byte) Reply {
 		cp[i] = append([]byte(nil), a...)
 	}
 	name := strings.ToUpper(string(args[0]))
-	rep := s.exec(dbi, name, cp)
+	var rep Reply
+	if s.failNext > 0 {
+		s.failNext--
+		rep = errR("ERR injected fault")
+	} else {
+		rep = s.exec(dbi, name, cp)
+	}
 	s.journal = append(s.journal, Entry{DB: dbi, Args: cp, Write: writeCmds[name], Err: rep.Kind == '-'})
 	return rep
 }
